@@ -95,6 +95,58 @@ def raw_events(case):
     return events
 
 
+class Boom(Exception):
+    pass
+
+
+def _raising_map(m, r):
+    def f(x):
+        if x % m == r:
+            raise Boom(x)
+        return x + 1
+    return f
+
+
+@st.composite
+def error_case(draw):
+    mono = draw(st.integers(0, 3)) == 0
+    layers = [draw(c02.layer(mono)) for _ in range(draw(st.sampled_from([0, 1, 1, 2])))]
+    tail = draw(gen.chain('int', gen.Opts(mux=True, max_depth=1, max_len=2, exact=True, time_split=False), 1))
+    items = draw(gen.mono_items(14) if mono else gen.int_items(14))
+    return {'tin': 'mono' if mono else 'int', 'layers': layers, 'fail': [draw(st.integers(2, 4)), draw(st.integers(0, 1))],
+            'handler': draw(st.sampled_from(['ignore', 'map', 'router'])), 'tail': tail, 'items': items}
+
+
+def check_errors(case):
+    """Item-level mux errors inside nested windows/groups, handled directly behind the failing map: the lifecycle must
+    stay well-formed at every boundary (an error is only ever emitted for a live key) and the stream completes."""
+    monitor.install()
+    m, r = case['fail']
+    if case['handler'] == 'ignore':
+        h = [rs.error.ignore()]
+    elif case['handler'] == 'map':
+        h = [rs.error.map(lambda e: -1)]
+    else:
+        errors, route = rs.error.create_error_router()
+        errors.subscribe(on_next=lambda e: None)
+        h = [route()]
+    # the tail must be in its domain on what the handler lets through: decided on the model of the tail alone is not possible
+    # per window; mean(reduce) is the only out-of-domain operator and is simply not used here
+    if any(n[0] == 'mean' and n[1] for n in A.walk(case['tail'])):
+        raise Reject()
+    inner = [rs.ops.map(_raising_map(m, r))] + h + A.build_pipeline(case['tail'], A.Env())
+    monitor.REC.reset()
+    res = drive.store(case['items'], c02.wrap(case['layers'], inner))
+    ctx = dict(case)
+    verdict('errors under nesting', **ctx)
+    H.require_clean(res, 'errors under nesting', **ctx)
+    failing = sum(1 for x in case['items'] if x % m == r)
+    i = info(case['tail'])
+    i['labels'] = ['handler:' + case['handler'], 'layers:' + ('+'.join(l[0] for l in case['layers']) or 'none'), 'failing=%d' % min(failing, 3)]
+    i['nontrivial'] = failing >= 1 and len(case['layers']) >= 1 and len(case['items']) > failing
+    return i
+
+
 INNERS = [[], [['to_list']], [['count', True], ['pad_end', 1, None]], [['tee', 'zip', [[['last']], [['scan_sum', False]]]]]]
 
 
@@ -117,5 +169,7 @@ def subs(tier):
             doc='well-formed raw mux histories (slot re-use, sparse indices, interleaving) through P'),
         Sub('multiplex', check_multiplex, gen=lambda: H.pipeline_case(STATELESS, max_items=12, min_len=1), examples={'quick': 500, 'thorough': 40000},
             doc='rs.ops.multiplex(P) for stateless P (incl. merge/zip tees)'),
+        Sub('errors', check_errors, gen=error_case, examples={'quick': 800, 'thorough': 60000},
+            doc='a raising map + ignore / error.map / router inside group_by/roll/split/time_split nestings: lifecycle stays well-formed'),
         Sub('roll_enum', check_store, enum=roll_enum, doc='exhaustive (window, stride, length) for roll alone and under group_by'),
     ]
